@@ -176,7 +176,10 @@ def analyse(kind, page, tasks, links):
     return {'data': data, 'error': err}
 
 
-def check(par, links, names, milestones, sections, clock_off, acc, base_cache, spent=None):
+IDMAPS = {'plain': None, 'multi-digit': [1, 12, 11, 2], 'strings': ['a', 'bc', 'ab', 'c']}
+
+
+def check(par, links, names, milestones, sections, clock_off, acc, base_cache, spent=None, idmap=None):
     """One scheduled WBS x one rendering configuration."""
     n = len(par)
     lv = [i for i in range(n) if LY.is_leaf(par, i)]
@@ -187,14 +190,18 @@ def check(par, links, names, milestones, sections, clock_off, acc, base_cache, s
     for i in milestones:
         if i in lv:
             attrs[i] = {'milestone': True, 'resource': 'A'}
-    sc = Scenario('fwd', True, MON, LY.mk_tasks(par, attrs), list(links), clock=MON - 30 * DAY, layer='C19')
+    tl = LY.mk_tasks(par, attrs)
+    if idmap is not None:
+        tl = [(idmap[k], p, a) for k, (_, p, a) in enumerate(tl)]
+    sc = Scenario('fwd', True, MON, tl, list(links), clock=MON - 30 * DAY, layer='C19')
     ex = execute(sc)
     if ex.status != 'ok':
         raise runtime.HarnessError('C19 input did not schedule: ' + sc.key())
     w = ex.result.schedule
     tasks = list(w.tasks)
     by_id = {t.id: t for t in tasks}
-    for i, t in enumerate(sorted(tasks, key=lambda t: t.id)):
+    order_ids = [x[0] for x in tl]
+    for i, t in enumerate(sorted(tasks, key=lambda t: order_ids.index(t.id))):
         t.name = names[i]
         if sections.get(i) is not None:
             t.gantt_section = sections[i]
@@ -305,22 +312,32 @@ def _work(chunk):
         for spent in ((2,), (4, 12), (12, 0)):
             for clock_off in (timedelta(days=-5), timedelta(hours=2)):
                 jobs.append((par, links, (), {}, clock_off, 0, spent))
+    # ids with several digits / characters: two different links may concatenate to the same text ("1"+"12" == "11"+"2")
+    flat4 = (None, None, None, None)
+    for links in LY.link_sets(flat4, 2):
+        if links and not LY.direct_cycle(4, links):
+            for idk in ('multi-digit', 'strings'):
+                jobs.append((flat4, links, (), {}, timedelta(hours=2), 0, ('ids', idk)))
     for (par, links, ms, sec, clock_off, pos, spent) in jobs[i::n]:
+        idmap = None
+        if isinstance(spent, tuple) and spent and spent[0] == 'ids':
+            idmap = IDMAPS[spent[1]]
+            spent = None
         k = len(par)
         base_names = ['t%d' % j for j in range(k)]
         base_names[pos] = 'x'
-        wb, tb, depb, resb, clock = check(par, links, base_names, ms, sec, clock_off, acc, None, spent)
-        adv_id = sorted(t.id for t in tb)[pos]
-        for nm in (NAMES if spent is None else NAMES[:3]):
+        wb, tb, depb, resb, clock = check(par, links, base_names, ms, sec, clock_off, acc, None, spent, idmap)
+        adv_id = (idmap[pos] if idmap is not None else sorted(t.id for t in tb)[pos])
+        for nm in (NAMES if (spent is None and idmap is None) else NAMES[:3]):
             names = list(base_names)
             names[pos] = nm
-            w, tasks, deps, res, clock = check(par, links, names, ms, sec, clock_off, acc, None, spent)
+            w, tasks, deps, res, clock = check(par, links, names, ms, sec, clock_off, acc, None, spent, idmap)
             for kind in ('gantt', 'network', 'dhtmlx'):
                 acc.count('evaluations')
                 case = {'parents': list(par), 'links': [list(x) for x in links], 'names': names, 'milestones': list(ms),
                         'sections': {str(a): b for a, b in sec.items()}, 'clock_offset_h': clock_off.total_seconds() / 3600, 'renderer': kind,
                         'spent': list(spent) if spent else None}
-                cls = name_class(nm) if spent is None else 'spent-work'
+                cls = name_class(nm) if (spent is None and idmap is None) else 'spent-work' if idmap is None else 'long-ids'
 
                 def V(clause, msg):
                     acc.violation('C19', f'{clause}/{cls}', f'name {nm!r}: {msg}', case)
@@ -345,7 +362,7 @@ def _work(chunk):
                 if nm not in ('a', 'a b'):
                     acc.count('nontrivial')
         # a renderer object is reused after the WBS changed: its output is the one a fresh renderer gives
-        if spent is None and pos == 0 and clock_off == timedelta(hours=2):
+        if spent is None and idmap is None and pos == 0 and clock_off == timedelta(hours=2):
             from pjplan import MermaidGantt, MermaidNetwork, DhtmlxGantt
             wr, tr, _, _, clk = check(par, links, base_names, ms, sec, clock_off, acc, None)
             seams.CLOCK.set_const(clk)
